@@ -394,7 +394,10 @@ func c14RecvUntil(s *zmq4.Socket, mark int64) ([][][]byte, string) {
 				return out, ""
 			}
 			if fr < mark {
-				continue // stale handshake probe
+				// a stale handshake probe, or the end marker of an earlier batch that a receive time-out left unread on this
+				// socket: whatever came before it belongs to that earlier batch, not to this one
+				out = nil
+				continue
 			}
 		}
 		out = append(out, m)
@@ -407,12 +410,13 @@ func c14Flush() string {
 	s := []*DataRecord{{channelIndex: c14Sentinel, trigFrame: FrameIndex(mark)}}
 	c14N.recChan <- s
 	c14N.sumChan <- s
+	first := ""
 	for _, sock := range []*zmq4.Socket{c14N.recAll, c14N.recOne, c14N.sumAll, c14N.sumOne} {
-		if _, msg := c14RecvUntil(sock, mark); msg != "" {
-			return msg
+		if _, msg := c14RecvUntil(sock, mark); msg != "" && first == "" {
+			first = msg // (go on: the other sockets must be read up to the marker all the same)
 		}
 	}
-	return ""
+	return first
 }
 
 func c14Run(c c14Case) (v vVerdict) {
